@@ -41,7 +41,8 @@ class SpecFn:
 
 
 SPEC_NAMES = {n: SpecFn(n) for n in ('implies', 'iff', 'forall', 'exists', 'old', 'fresh_obj',
-                                     'unchanged', 'typeis', 'int_text', 'str_of')}
+                                     'unchanged', 'typeis', 'int_text', 'str_of',
+                                     'sumover', 'sumupto', 'oldget')}
 _clause_cache = {}
 
 
@@ -67,6 +68,11 @@ class CallMixin:
         if isinstance(e.func, ast.Name) and e.func.id in SPEC_NAMES \
                 and e.func.id not in self.frame.locals:
             return self.spec_call(e.func.id, e)
+        if isinstance(e.func, ast.Attribute) and e.func.attr == 'update' and len(e.args) == 1 \
+                and not e.keywords and isinstance(e.args[0], (ast.Dict, ast.List, ast.Tuple, ast.Set)):
+            r = self.update_with_literal(e)
+            if r is not None:
+                return r
         fv = self.eval(e.func)
         # generator-consuming builtins get the AST
         if fv.kind == CONST and fv.py in (any, all, sum, set, list, sorted, tuple, min, max,
@@ -90,6 +96,38 @@ class CallMixin:
                 raise Unsupported('**kwargs call')
             kwargs[kw.arg] = self.eval(kw.value)
         return self.call_value(fv, args, kwargs, e)
+
+    def update_with_literal(self, e):
+        """d.update({k: v, ...}) / counter.update({k: n}) / counter.update([k, ...]) /
+        set.update([x, ...]) with a literal argument: applied element by element."""
+        base = self.force(self.eval(e.func.value))
+        lit = e.args[0]
+        k = base.kind
+        if k.is_dict:
+            if isinstance(lit, ast.Dict):
+                if any(x is None for x in lit.keys):
+                    raise Unsupported('dict unpacking in update literal')
+                pairs = [(self.eval(a), self.eval(b)) for a, b in zip(lit.keys, lit.values)]
+            elif k.name == 'counter':
+                pairs = [(self.eval(a), SV(INT, z3.IntVal(1))) for a in lit.elts]
+            else:
+                return None
+            for kv, vv in pairs:
+                kt = self.coerce(self.force(kv), k.key)
+                has, vals = self.dict_has(base), self.dict_vals(base)
+                if k.name == 'counter':
+                    cur = z3.If(z3.Select(has, kt), z3.Select(vals, kt), 0)
+                    nv = cur + self.as_int(self.force(vv))
+                else:
+                    nv = self.coerce(vv, k.val)
+                self.dict_store(base, z3.Store(has, kt, z3.BoolVal(True)), z3.Store(vals, kt, nv))
+            return NONEV
+        if k.is_set and not isinstance(lit, ast.Dict):
+            for a in lit.elts:
+                t = self.coerce(self.force(self.eval(a)), k.elem)
+                self.set_store(base, z3.Store(self.set_mem(base), t, z3.BoolVal(True)))
+            return NONEV
+        return None
 
     def super_call(self, e):
         fr = self.frame
@@ -403,6 +441,11 @@ class CallMixin:
             return const(cls(*[None for _ in args]) if False else cls)
         if cls in (int, str, bool, list, set, dict, tuple, frozenset, float):
             return getattr(self, 'b_' + cls.__name__)(args, kwargs)
+        import collections
+        if cls is collections.Counter and not args and not kwargs:
+            return SV(Kind('emptydict'), None, {})
+        if cls is collections.deque and not args and not kwargs:
+            return SV(Kind('emptylist'), None, [])
         ext = self.reg.externals.get(cls)
         if ext is not None:
             return ext(self, args, kwargs)
@@ -751,6 +794,58 @@ class CallMixin:
                 raise Unsupported('div/mod of a bound variable under this quantifier')
             q = z3.ForAll(vars_, body) if name == 'forall' else z3.Exists(vars_, body)
             return SV(BOOL, q)
+        if name == 'oldget':
+            # element i (a value of the CURRENT state) of container c as it was in the OLD state
+            if self.old is None:
+                raise Unsupported('oldget() outside a contract')
+            idx = self.eval(e.args[1])
+            old_heap, old_env = self.old
+            cur_heap = p.heap
+            fr = self.frame
+            cur_locals = fr.locals
+            p.heap = dict(old_heap)
+            merged = dict(cur_locals)
+            merged.update(old_env)
+            fr.locals = merged
+            self.term_mode += 1
+            try:
+                cont = self.force(self.eval(e.args[0]))
+                return self.getitem(cont, idx)
+            finally:
+                self.term_mode -= 1
+                for k_, a in p.heap.items():
+                    if k_ not in old_heap and k_ not in cur_heap:
+                        cur_heap[k_] = a
+                        old_heap[k_] = a
+                    elif k_ not in old_heap:
+                        old_heap[k_] = a
+                p.heap = cur_heap
+                fr.locals = cur_locals
+        if name in ('sumover', 'sumupto'):
+            # sum of counter[c][m] over the members m of a set, in the set's ghost
+            # enumeration order; sumupto(.., k) is the partial sum of the first k members
+            sv = self.force(self.eval(e.args[0]))
+            cv = self.force(self.eval(e.args[1]))
+            if not (sv.kind.is_set and cv.kind.is_dict):
+                raise Unsupported(f'{name} on {sv.kind},{cv.kind}')
+            ctx = self.order_of(sv)
+            ordf, mem = ctx[3]
+            n = ctx[2]
+            s = sort_of(sv.kind.elem)
+            has, vals = self.dict_has(cv), self.dict_vals(cv)
+            P = z3.Function('psum_' + sort_name(s), z3.ArraySort(s, B), z3.ArraySort(s, B),
+                            z3.ArraySort(s, I), I, I)
+            k = n if name == 'sumover' else self.as_int(self.force(self.eval(e.args[2])))
+
+            def f(j):
+                x = ordf(mem, j)
+                return z3.If(z3.Select(has, x), z3.Select(vals, x), 0)
+            p.assume(P(mem, has, vals, 0) == 0)
+            p.assume(z3.Implies(z3.And(k >= 1, k <= n),
+                                P(mem, has, vals, k) == P(mem, has, vals, k - 1) + f(k - 1)))
+            p.assume(z3.Implies(z3.And(k >= 0, k < n),
+                                P(mem, has, vals, k + 1) == P(mem, has, vals, k) + f(k)))
+            return SV(INT, P(mem, has, vals, k))
         if name == 'int_text':
             v = self.force(self.eval(e.args[0]))
             if v.kind != STR:
@@ -782,6 +877,7 @@ class CallMixin:
     def eval_loc_expr(self, src, env, contract):
         from .engine import Frame
         node = parse_clause(src)
+        in_loop = env is None
         if env is None:
             env = dict(self.frame.locals)
             globs = self.frame.globals
@@ -791,7 +887,7 @@ class CallMixin:
         self.frames.append(fr)
         self.term_mode += 1
         saved_heap = None
-        if self.old is not None:
+        if self.old is not None and not in_loop:
             saved_heap = self.p.heap
             self.p.heap = dict(self.old[0])
         try:
